@@ -84,7 +84,9 @@ func (e *Engine) CheckRelationTuple(ctx context.Context, r *relationTuple, restD
 		restDepth = globalMaxDepth
 	}
 
-	resultCh := make(chan checkgroup.Result)
+	// The channel is buffered so that the check goroutine can always deliver
+	// its result and exit, even if we stopped listening because ctx is done.
+	resultCh := make(chan checkgroup.Result, 1)
 	go e.checkIsAllowed(ctx, r, restDepth, false)(ctx, resultCh)
 	select {
 	case result := <-resultCh:
